@@ -145,8 +145,15 @@ Definition parse_alg (c : list str) : option algcase :=
   | _ => None
   end.
 
-(* Suppress in the harness uses regexp.QuoteMeta(p): literal substring match *)
-Definition rmatch_literal (p m : str) : bool := contains m p.
+(* Suppress: the match relation the runner instantiates.  The harness hands Suppress one of two expression shapes:
+   regexp.QuoteMeta(p) — literal substring match — and, for a pattern tagged with the bytes 01 'I',
+   "(?i)" ++ regexp.QuoteMeta(p') — substring match ignoring ASCII case (the harness keeps such cases ASCII).
+   Each expression is matched on its own: an inline flag of one expression says nothing about the next. *)
+Definition rmatch_literal (p m : str) : bool :=
+  match p with
+  | t0 :: t1 :: p' => if beq t0 (byte 1) && beq t1 (byte 73) then contains (lower m) (lower p') else contains m p
+  | _ => contains m p
+  end.
 
 Definition p_invoked (i : invoked) : list str :=
   nospace (fst i) :: usage (fst i) :: p_list (messages (fst i)) ++ p_raws (sort_by_value (snd i)).
